@@ -2,7 +2,7 @@
 import json
 import random
 
-from .. import core, flow, oracles_bm as ob
+from .. import core, flow, corr_bm, oracles_bm as ob
 
 PROOFS = ['Tsv.Proofs.C03Alg', 'Tsv.Proofs.C03Reverse']
 TRUSTED = ["Lean 4.33 kernel + Mathlib", "vlib/sym.py tracer and vlib/emit.py emitter (validated each run: real code vs trace, "
@@ -37,8 +37,13 @@ def search(rep, broken):
 def run(rep, tier, seed):
     flow.run_gen(rep, {'Brownian'}, seed, 20 if tier == 'quick' else 200)
     flow.run_proofs(rep, PROOFS, extra_scan=['Tsv.Gen.Brownian', 'Tsv.Model.Agg'])
-    # model validation on the real objects (never a substitute for the theorems; deterministic identities only)
     rng = random.Random(seed)
+    # which stored pieces answer a query (_loc/_split) is the Brownian state-machine model's business: tie it here too
+    c = corr_bm.run(rng, 6 if tier == 'quick' else 40, 90 if tier == 'quick' else 250)
+    rep.ob('correspondence:brownian-model', f"{c.get('configs', 0)} objects / {c.get('queries', 0)} queries", c['ok'],
+           json.dumps(c.get('mismatches') or c.get('error', ''), default=str)[:1800])
+    rep.cov['correspondence'] = {k: v for k, v in c.items() if k != 'mismatches'}
+    # model validation on the real objects (never a substitute for the theorems; deterministic identities only)
     n = (25, 60, 8) if tier == 'quick' else (400, 200, 20)
     fails, stats = oracle(rep, rng, *n)
     rep.cov['real_code_oracle'] = stats
